@@ -153,7 +153,10 @@ let () =
         Buffer.add_string sobs (Printf.sprintf "%s %s %d [" tok stag (List.length live));
         let first = ref true in
         List.iter (fun m ->
-          let bytes = match s_read !sp m.s_id with Some l -> l | None -> [] in
+          (* a byte the reference semantics does not know (never written) cannot occur here: the
+             driver fills every fresh reservation; it would print as 0 *)
+          let bytes = match s_read !sp m.s_id with
+            | Some l -> List.map (function Some v -> v | None -> zi 0) l | None -> [] in
           if not !first then Buffer.add_char sobs ' ';
           first := false;
           Buffer.add_string sobs (Printf.sprintf "%d:%d:%08x" (iz m.s_id) (iz m.s_sz) (fnv bytes))) live;
